@@ -504,7 +504,11 @@ class Doist(tyming.Tymist):
             doers is list of doers to add as extension.
 
         """
-        doers = [doer for doer in doers if doer not in self.doers] # ensure unique
+        udoers = []  # ensure unique in .doers and in doers
+        for doer in doers:
+            if doer not in self.doers and doer not in udoers:
+                udoers.append(doer)
+        doers = udoers
         deeds = self.enter(doers=doers)  # provide fresh deeds for new doers
         self.doers.extend(doers)
         self.deeds.extend(deeds)
@@ -1385,7 +1389,11 @@ class DoDoer(Doer):
             doers is list of doers to add as extension.
 
         """
-        doers = [doer for doer in doers if doer not in self.doers] # ensure unique
+        udoers = []  # ensure unique in .doers and in doers
+        for doer in doers:
+            if doer not in self.doers and doer not in udoers:
+                udoers.append(doer)
+        doers = udoers
         deeds = self.enter(doers=doers)  # provide fresh deeds for new doers
         self.doers.extend(doers)
         self.deeds.extend(deeds)
